@@ -368,3 +368,4 @@ package coordinator
 //@   at after Time#4: ghost pt = nanos(callresult)
 //@   callee_requires_assumed
 //@   call ShardGroupInfo.ShardFor#1 requires group_designates_the_points_time: sg != nil && designates_ns(sg, pt)
+//@   call ShardGroupInfo.ShardFor#1 requires a_point_older_than_the_retention_period_is_dropped: pt >= nanos(min)
